@@ -451,7 +451,7 @@ func pa4(c *Ctx, p *Prog, rule string, scope paScope) int {
 		}
 		// forward use: argument is Colors[c'] & Pieces[Pawn] (possibly through bit loops)
 		arg := ac.Call.Call.Args[0]
-		sl := backSlice(arg, sliceOpts{ThroughCalls: true})
+		sl := backSlice(arg, sliceOpts{}) // a bitboard argument: bit tricks and phis only, no calls
 		fwdPawn := false
 		var fcols []colourExpr
 		for x := range sl {
